@@ -127,8 +127,10 @@ func (n *nni) Apply() (err error) {
 	e2 = n.n2.Edges()[n22index]
 
 	// The root is somwhere in the
-	// clade on the n1_2 side
-	if e1.Right() == n.n1 {
+	// clade on the n1_2 side, or in the clade
+	// that moves to n1: in both cases it changes
+	// side of the n1-n2 edge
+	if e1.Right() == n.n1 || e2.Right() == n.n2 {
 		// Reorient n1-n2 edge
 		n.n1.Edges()[n1n2index].Inverse()
 	}
